@@ -84,6 +84,7 @@ func (l linLoader) Load(ctx context.Context, k int) (int, error) {
 func (l linLoader) Reload(ctx context.Context, k int, old int) (int, error) { return l.Load(ctx, k) }
 
 var errLin = errors.New("verif: load failed")
+var errLinPanic = errors.New("verif: the function panics")
 
 func runLinCase(c linCase) outcome {
 	var o outcome
@@ -224,11 +225,15 @@ func runLinCase(c linCase) outcome {
 					rec.add(op)
 				case r < 66:
 					v := newVal()
-					plan := rng.Intn(5) // 0,1 write; 2 invalidate; 3 cancel; 4 write-if-found-else-cancel
+					plan := rng.Intn(6) // 0,1 write; 2 invalidate; 3 cancel; 4 write-if-found-else-cancel; 5 the function panics
 					variant := rng.Intn(3)
 					op := vh.HOp{Kind: "compute", Key: k, Client: g, Val: v, Call: rec.now()}
 					decide := func(found bool) otter.ComputeOp {
 						switch plan {
+						case 5:
+							// a panicking function: the panic reaches the caller and the mapping stays as it was
+							op.Cop = "panic"
+							panic(errLinPanic)
 						case 2:
 							op.Cop = "invalidate"
 							return otter.InvalidateOp
@@ -244,33 +249,55 @@ func runLinCase(c linCase) outcome {
 						op.Cop = "write"
 						return otter.WriteOp
 					}
-					switch variant {
-					case 0:
-						op.OutVal, op.OutOK = cache.Compute(k, func(old int, found bool) (int, otter.ComputeOp) {
-							op.Calls++
-							op.SawOld, op.SawFound = old, found
-							return v, decide(found)
-						})
-					case 1:
-						op.OutVal, op.OutOK = cache.ComputeIfAbsent(k, func() (int, bool) {
-							op.Calls++
-							op.SawOld, op.SawFound = 0, false
-							if plan == 3 {
-								op.Cop = "cancel"
-								return v, true
+					func() {
+						defer func() {
+							if r := recover(); r != nil && op.Cop != "panic" { // the cache wraps the function's panic value
+								panic(r)
 							}
-							op.Cop = "write"
-							return v, false
-						})
-					case 2:
-						op.OutVal, op.OutOK = cache.ComputeIfPresent(k, func(old int) (int, otter.ComputeOp) {
-							op.Calls++
-							op.SawOld, op.SawFound = old, true
-							return v, decide(true)
-						})
-					}
+						}()
+						switch variant {
+						case 0:
+							op.OutVal, op.OutOK = cache.Compute(k, func(old int, found bool) (int, otter.ComputeOp) {
+								op.Calls++
+								op.SawOld, op.SawFound = old, found
+								return v, decide(found)
+							})
+						case 1:
+							op.OutVal, op.OutOK = cache.ComputeIfAbsent(k, func() (int, bool) {
+								op.Calls++
+								op.SawOld, op.SawFound = 0, false
+								if plan == 3 {
+									op.Cop = "cancel"
+									return v, true
+								}
+								if plan == 5 {
+									op.Cop = "panic"
+									panic(errLinPanic)
+								}
+								op.Cop = "write"
+								return v, false
+							})
+						case 2:
+							op.OutVal, op.OutOK = cache.ComputeIfPresent(k, func(old int) (int, otter.ComputeOp) {
+								op.Calls++
+								op.SawOld, op.SawFound = old, true
+								return v, decide(true)
+							})
+						}
+					}()
 					op.Ret = rec.now()
-					if op.Calls == 0 {
+					if op.Cop == "panic" {
+						if op.Calls != 1 {
+							op.Kind = "compute-nocall"
+							op.Note = "panicking function"
+						} else {
+							// the function saw (old, found) and panicked: an atomic read of that state which changes nothing
+							op.Kind, op.OutVal, op.OutOK, op.Note = "read", op.SawOld, op.SawFound, "compute whose function panicked"
+							if !op.SawFound {
+								op.OutVal = 0
+							}
+						}
+					} else if op.Calls == 0 {
 						// the conditional forms returned without running the function: a plain read
 						op.Kind = "read"
 						op.Note = "conditional compute without callback"
@@ -288,6 +315,7 @@ func runLinCase(c linCase) outcome {
 				default:
 					// loader-backed Get
 					fail := rng.Intn(6) == 0
+					lpanic := fail && rng.Intn(3) == 0 // the loader panics: a failed load whose panic reaches the caller
 					var entryT, exitT int64
 					var loaded int
 					invoked := false
@@ -296,6 +324,10 @@ func runLinCase(c linCase) outcome {
 						exit:  func(int) { exitT = rec.now() },
 						val: func(int) (int, error) {
 							loaded = newVal()
+							if lpanic {
+								exitT = rec.now()
+								panic(errLinPanic)
+							}
 							if fail {
 								return loaded, errLin
 							}
@@ -303,7 +335,19 @@ func runLinCase(c linCase) outcome {
 						},
 					}
 					call := rec.now()
-					v, err := cache.Get(context.Background(), k, ld)
+					var v int
+					var err error
+					func() {
+						defer func() {
+							if r := recover(); r != nil {
+								if !lpanic || !invoked {
+									panic(r)
+								}
+								v, err = loaded, errLinPanic // the loading caller sees its loader's panic again
+							}
+						}()
+						v, err = cache.Get(context.Background(), k, ld)
+					}()
 					ret := rec.now()
 					if invoked {
 						tok := int(tokCtr.Add(1))
